@@ -347,7 +347,10 @@ def test(
 
 def _grep_text(pattern: patterns.Pattern, text: str, color: bool) -> typ.Iterable[str]:
     all_lines = text.splitlines()
-    for match in pattern.regexp.finditer(text):
+    # NOTE: patterns are matched per line when files are rewritten, so that
+    #   the anchors ^ and $ must refer to the start and end of a line here.
+    regexp = re.compile(pattern.regexp.pattern, pattern.regexp.flags | re.MULTILINE)
+    for match in regexp.finditer(text):
         match_start, match_end = match.span()
 
         line_idx   = text[:match_start].count("\n")
